@@ -862,7 +862,11 @@ class Interp:
                 parts.append(str(v.value))
             else:
                 x = self.eval(st, v.value, fr)
+                if isinstance(x, SInt) and v.conversion == -1 and (v.format_spec is None or all(isinstance(c, ast.Constant) and c.value == "d" for c in v.format_spec.values)):
+                    parts.append(x)  # `{n}` / `{n:d}` of a symbolic int: its decimal rendering, kept symbolic (SFmt)
+                    continue
                 if isinstance(x, Sym) or isinstance(x, (FnVal, SExc)):
+                    parts = [p for p in parts if isinstance(p, str)]
                     parts.append("<sym>")
                     return ("fstring", tuple(parts))  # opaque text (messages)
                 spec = ""
@@ -873,6 +877,8 @@ class Interp:
                 elif v.conversion == ord("s"):
                     x = str(x)
                 parts.append(format(x, spec))
+        if any(not isinstance(p, str) for p in parts):
+            return V.SFmt(parts)
         return "".join(parts)
 
     def e_Lambda(self, st, e, fr):
@@ -950,6 +956,8 @@ class Interp:
         seq_types = (tuple, SSeq, LRef)
         if isinstance(a, seq_types) or isinstance(b, seq_types):
             return self.seq_binop(st, op, a, b)
+        if (isinstance(a, V.SFmt) or isinstance(b, V.SFmt)) and isinstance(op, ast.Add) and isinstance(a, (str, V.SFmt)) and isinstance(b, (str, V.SFmt)):
+            return a + b
         if a is None or b is None:
             raise PyRaise(SExc(TypeError, ("unsupported operand type(s) for NoneType",)))
         if is_num(a) and is_num(b):
